@@ -6,15 +6,16 @@ CONSTANTS Emit
 VARIABLES in, out, ph
 vars == <<in, out, ph>>
 DimNames == <<"x", "y", "z">>
-Pool == << <<4, 2, 6>>, <<2, 6>>, <<6, 2, 4, 8>> >>
-Arr(nd, perm) == Fresh([i \in 1..nd |-> DimNames[perm[i]]], [i \in 1..nd |-> "i"], [i \in 1..nd |-> Pool[perm[i]]], [i \in 1..nd |-> 0], "f", 0, 100)
+\* two label pools: axes of pairwise different lengths, and axes of one common length (where the shape cannot tell the dimensions apart)
+Pools == << << <<4, 2, 6>>, <<2, 6>>, <<6, 2, 4, 8>> >>, << <<4, 2>>, <<2, 6>>, <<6, 4>> >>, << <<4>>, <<2, 6, 4>>, <<6, 8, 2>> >> >>
+Arr(nd, perm, pl) == Fresh([i \in 1..nd |-> DimNames[perm[i]]], [i \in 1..nd |-> "i"], [i \in 1..nd |-> Pools[pl][perm[i]]], [i \in 1..nd |-> 0], "f", 0, 100)
 Perms(n) == {p \in [1..n -> 1..3] : \A i, j \in 1..n : i # j => p[i] # p[j]}
 Init == in = <<>> /\ out = <<>> /\ ph = 0
 Choose == /\ ph = 0 /\ ph' = 1
-          /\ \E nd \in 0..3 : \E p \in Perms(nd) : \E bad \in {"", "shape", "dupnames"} :
+          /\ \E nd \in 0..3 : \E p \in Perms(nd) : \E pl \in 1..Len(Pools) : \E bad \in {"", "shape", "dupnames"} :
                /\ (bad = "shape" => nd >= 1) /\ (bad = "dupnames" => nd >= 2)
-               /\ in' = [a |-> Arr(nd, p), bad |-> bad]
-               /\ out' = [ok |-> bad = "", val |-> Arr(nd, p)]
+               /\ in' = [a |-> Arr(nd, p, pl), bad |-> bad]
+               /\ out' = [ok |-> bad = "", val |-> Arr(nd, p, pl)]
                /\ (Emit => PrintT(ToJson([op |-> "construct", in |-> in', out |-> out'])))
 Spec == Init /\ [][Choose]_vars
 FormsAgree == ph = 1 => (WellFormed(in.a) /\ (out.ok <=> in.bad = ""))
